@@ -41,10 +41,93 @@ def main():
         print(f"REPLAY: finding {rep['key']!r} is no longer reported on {a.repo}")
         return 0
     run = Run(prop, a.tier, a.repo, level=mod.LEVEL, seed=seed)
-    out = mod.check(run)
+    err = None
+    try:
+        out = mod.check(run)
+    except AnalysisError as e:
+        out, err = None, e
+    if (run.violations or err is not None) and not os.environ.get("VERIF_NO_VIEWS"):
+        run, out, err = _second_opinion(mod, prop, a, seed, run, out, err)
+    if err is not None:
+        raise err
     if a.tier == "thorough":
         _thorough(run, prop, a.repo)
     return run.finish(**(out or {"explanation": mod.__doc__ or prop}))
+
+
+def _second_opinion(mod, prop, a, seed, run, out, err):
+    """Re-decide what was found on normal forms of the same tree (sa/normalize.py).
+
+    A finding of rule R at function F on the source as written stands unless a view - the tree with private helpers
+    inlined and / or single-use locals folded, rewrites that keep behaviour - is analysed without error, evaluates at
+    least as many instances of R, and reports neither that finding (same key) nor any finding of R at F.  An analysis error on the source as written is replaced by the verdict
+    of the first view that can be analysed.  Nothing is ever added to a clean verdict."""
+    import shutil
+
+    from . import normalize
+
+    notes = []
+    for passes in normalize.VIEWS:
+        if not run.violations and err is None:
+            break
+        try:
+            vdir, st = normalize.build_view(a.repo, passes)
+        except Exception as e:  # noqa - a view that cannot be built decides nothing
+            notes.append({"passes": list(passes), "status": f"not built: {type(e).__name__}: {e}"})
+            continue
+        try:
+            if not st["modules_rewritten"]:
+                notes.append({**st, "status": "identical to the source as written"})
+                continue
+            r2 = Run(prop, a.tier, vdir, level=mod.LEVEL, seed=seed)
+            try:
+                out2 = mod.check(r2)
+            except Exception as e:  # noqa
+                notes.append({**st, "status": f"view not analysable: {type(e).__name__}: {str(e)[:200]}"})
+                continue
+            if err is not None:
+                # the source as written could not be analysed; this normal form can: its verdict is the verdict
+                for v in r2.violations + r2.known:
+                    v["where"] = normalize.remap_where(vdir, v["where"])
+                    v["message"] += " [decided on the " + "+".join(passes) + " normal form: the source as written could not be analysed: " + str(err)[:160] + "]"
+                r2.repo = run.repo
+                r2.extra["normal_forms"] = notes + [{**st, "status": "adopted: the source as written was not analysable"}]
+                r2.assume("verdict taken on the " + "+".join(passes) + " normal form of the tree (private helpers inlined / single-use locals folded)")
+                r2.t0 = run.t0
+                run, out, err = r2, out2, None
+                notes = r2.extra["normal_forms"]
+                continue
+            n1, n2 = {}, {}
+            for i in run.instances:
+                n1[i["rule"]] = n1.get(i["rule"], 0) + 1
+            for i in r2.instances:
+                n2[i["rule"]] = n2.get(i["rule"], 0) + 1
+            def qual(w):
+                return w.split(" ", 1)[1] if " " in w else w
+
+            # findings located in a helper whose every call was inlined are duplicates of what the rule says (or does not
+            # say) about the same statements in the callers
+            dup = set(st.get("fully_inlined", []))
+            v2 = [v for v in r2.violations if qual(v["where"]) not in dup]
+            bad2 = {(v["rule"], v["key"]) for v in v2} | {(v["rule"], qual(v["where"])) for v in v2}
+            dropped = [v for v in run.violations if (v["rule"], v["key"]) not in bad2 and (v["rule"], qual(v["where"])) not in bad2
+                       and n2.get(v["rule"], 0) >= n1.get(v["rule"], 0)]
+            cleared = sorted({v["rule"] for v in dropped})
+            if cleared:
+                run.violations = [v for v in run.violations if v not in dropped]
+                # a listed known finding that the normal form shows at its usual place is still announced
+                for k in r2.known:
+                    if k["rule"] in cleared and not any(x["key"] == k["key"] for x in run.known):
+                        k["where"] = normalize.remap_where(vdir, k["where"])
+                        run.known.append(k)
+                run.assume(f"rule(s) {cleared}: shape not recognised in the source as written, decided on the {'+'.join(passes)} normal form")
+                notes.append({**st, "status": f"cleared {cleared}", "cleared": [{k: v[k] for k in ('rule', 'where', 'message')} for v in dropped]})
+            else:
+                notes.append({**st, "status": "same findings"})
+        finally:
+            shutil.rmtree(vdir, ignore_errors=True)
+    run.extra["normal_forms"] = notes
+    return run, out, err
 
 
 def _thorough(run, prop, repo):
